@@ -486,6 +486,11 @@ def _setitem(func, args, kwargs):
     except ValueError as e:
         raise RuntimeError("shape mismatch: value tensor cannot be broadcast to indexing result: " + str(e))
     C().log_write(a._p, "setitem")
+    if isinstance(v, Sym) and v._g and (v._g.get("graph") or v._g.get("requires_grad")) and torch.is_grad_enabled():
+        # index_put keeps the autograd graph of the written values
+        own = v._g.get("gradset") or (frozenset([v._g.get("leaf", id(v))]) if v._g.get("requires_grad") else frozenset())
+        a._g = dict(a._g or {}); a._g["graph"] = True
+        a._g["gradset"] = (a._g.get("gradset") or frozenset()) | own
     return None
 
 
